@@ -4,6 +4,7 @@
 #include "../common/engine.hpp"
 #include "../common/keygen.hpp"
 #include "pgm/pgm_index_variants.hpp"
+#include <deque>
 #include <fstream>
 #include <memory>
 #include <sstream>
@@ -111,6 +112,11 @@ CaseResult run_mapped(const RunCtx &ctx, TapeReader &t, unsigned size_hint) {
     }
 
     const bool use_raw = !c12 && t.chance(1, 4); // C11: a quarter of the cases through the raw-file constructor
+    // the iterator range handed to the range constructor: vector iterators, raw pointers, std::deque iterators (random access, NOT
+    // contiguous), reverse iterators over a descending vector
+    const unsigned src_kind = (unsigned) t.below(4);
+    // what is at the output path before construction: nothing, or a longer stale file (at the range path, the raw path, or both)
+    const unsigned stale = (unsigned) t.below(6);
     std::ostringstream head;
     head << "MappedPGMIndex<" << type_name<K>() << "," << Eps << "," << ER << "," << type_name<F>() << ">";
     if (c12) {
@@ -142,6 +148,28 @@ CaseResult run_mapped(const RunCtx &ctx, TapeReader &t, unsigned size_hint) {
         std::ofstream r(fraw, std::ios::binary | std::ios::trunc);
         r.write((const char *) keys.data(), n * sizeof(K));
     }
+    auto plant_stale = [&](const std::string &path, size_t extra) {
+        std::ofstream r(path, std::ios::binary | std::ios::trunc);
+        std::string junk(2 * n * (sizeof(K) + 24) + 8192 + extra, char(0xAB));
+        r.write(junk.data(), (std::streamsize) junk.size());
+    };
+    if (stale == 3 || stale == 5) plant_stale(fa, 0), res.label("stale_longer_file_at_range_output");
+    if (stale == 4 || stale == 5) plant_stale(fb, 4096), res.label("stale_longer_file_at_raw_output");
+    static const char *const src_names[] = {"source_vector_iterators", "source_raw_pointers", "source_deque_iterators", "source_reverse_iterators"};
+    auto from_range = [&](const std::string &out) -> Index * {
+        switch (src_kind) {
+            case 1: return new Index(keys.data(), keys.data() + n, out);
+            case 2: {
+                std::deque<K> dq(keys.begin(), keys.end());
+                return new Index(dq.begin(), dq.end(), out);
+            }
+            case 3: {
+                std::vector<K> desc(keys.rbegin(), keys.rend());
+                return new Index(desc.rbegin(), desc.rend(), out);
+            }
+            default: return new Index(keys.begin(), keys.end(), out);
+        }
+    };
 
     res.label(meta.size_class);
     if (meta.chunks > 1) res.label("chunked");
@@ -159,7 +187,7 @@ CaseResult run_mapped(const RunCtx &ctx, TapeReader &t, unsigned size_hint) {
             // half of the cases through the raw-file constructor as well (both must honour the contract)
             std::unique_ptr<Index> idx;
             if (use_raw) idx.reset(new Index(fraw, fa)), res.label("built_from_raw_file");
-            else idx.reset(new Index(keys.begin(), keys.end(), fa)), res.label("built_from_range");
+            else idx.reset(from_range(fa)), res.label("built_from_range"), res.label(src_names[src_kind]);
             if (!mapped_queries<K>(res, *idx, keys, queries, use_raw ? "raw-file-built" : "range-built", nq, long_run, outside, Eps, mem)) {}
             res.nontrivial = long_run && outside;
             if (mem) res.nontrivial = n <= 3 || meta.starts_lowest || meta.top_reached || outside;
@@ -172,7 +200,8 @@ CaseResult run_mapped(const RunCtx &ctx, TapeReader &t, unsigned size_hint) {
             std::vector<std::unique_ptr<Index>> alive; // instances stay alive together (they share files)
             auto ensure = [&](bool a) {
                 if (a && !have_a) {
-                    alive.emplace_back(new Index(keys.begin(), keys.end(), fa));
+                    alive.emplace_back(from_range(fa));
+                    res.label(src_names[src_kind]);
                     have_a = true;
                     bytes_a = slurp(fa);
                     mapped_queries<K>(res, *alive.back(), keys, queries, "range-built", nq, long_run, outside, Eps, mem);
